@@ -3,12 +3,24 @@ import SaphyrModel.Resolve
 namespace ProtoE
 open ProtoR
 
+inductive FloatClass | finite | posInf | negInf | nan
+deriving Repr, DecidableEq
+
 inductive Y
   | null | bool (b : Bool) | int (i : Int) | str (s : Str)
-  | float (disp : Str)      -- the text `Display for f64` produces (external; supplied)
+  | float (cls : FloatClass) (disp : Str)   -- class of the value; `Display for f64` text (external; supplied)
   | seq (items : List Y)
   | map (pairs : List (Y × Y))
   | bad
+
+/-- how the emitter writes a float: YAML spellings for the non-finite values, the `Display` text
+    for finite ones, with `.0` appended when it has no fractional part or exponent -/
+def floatText (cls : FloatClass) (disp : Str) : Str :=
+  match cls with
+  | .nan => ".nan".toList
+  | .posInf => ".inf".toList
+  | .negInf => "-.inf".toList
+  | .finite => if disp.any (fun c => c == '.' || c == 'e' || c == 'E') then disp else disp ++ ['.', '0']
 
 structure Cfg where
   compact : Bool := true
@@ -46,6 +58,7 @@ def needQuotes (s : Str) : Bool :=
   || ['0', 'x'].isPrefixOf s
   || (fromStrRadix s 10).isSome
   || (parseF64 s).isSome
+  || (match parseFromCow s with | .string _ => false | _ => true)
 
 /-- `is_valid_literal_block_scalar` (note the source's upper bound `\u{d7fff}`) -/
 def validLiteral (s : Str) : Bool :=
@@ -67,8 +80,35 @@ def emitLiteral (cfg : Cfg) (level : Int) (s : Str) : Str :=
   let hdr : Str := if s.getLast? == some '\n' then ['|'] else ['|', '-']
   hdr ++ (lines s).flatMap fun l => ['\n'] ++ indentStr cfg (level + 1) ++ l
 
+/-- `str::len()`: length in UTF-8 bytes -/
+def utf8Len (s : Str) : Nat := s.foldl (fun n c => n + c.utf8Size) 0
+
+/-- split on '\n' (`str::split('\n')`) -/
+def splitNl (s : Str) : List Str :=
+  let rec go (cur : Str) : Str → List Str
+    | [] => [cur]
+    | '\n' :: r => cur :: go [] r
+    | c :: r => go (cur ++ [c]) r
+  go [] s
+
+def endsWith2Nl (s : Str) : Bool :=
+  match s.reverse with
+  | '\n' :: '\n' :: _ => true
+  | _ => false
+
+/-- `use_literal_block`: `multiline_strings` is set and the `|` / `|-` form reads back as `s` -/
+def useLiteral (cfg : Cfg) (level : Int) (s : Str) : Bool :=
+  cfg.multiline && s.contains '\n' && validLiteral s
+  && !endsWith2Nl s
+  && s.any (· != '\n')
+  && (match s.dropWhile (· == '\n') with
+      | c :: _ => !(c == ' ' || c == '\t')
+      | [] => true)
+  && (decide (level ≥ 0) ||
+      !(splitNl s).any (fun l => ['-', '-', '-'].isPrefixOf l || ['.', '.', '.'].isPrefixOf l))
+
 def emitScalarStr (cfg : Cfg) (level : Int) (s : Str) : Str :=
-  if cfg.multiline && s.contains '\n' && validLiteral s then emitLiteral cfg level s
+  if useLiteral cfg level s then emitLiteral cfg level s
   else if needQuotes s then escapeStr s else s
 
 def intStr (i : Int) : Str := (toString i).toList
@@ -80,7 +120,7 @@ def emitNode (cfg : Cfg) (level : Int) : Y → Str
   | .str s => emitScalarStr cfg level s
   | .bool b => if b then "true".toList else "false".toList
   | .int i => intStr i
-  | .float d => d
+  | .float c d => floatText c d
   | .null | .bad => ['~']
 def emitSeqItems (cfg : Cfg) (level : Int) (first : Bool) : List Y → Str
   | [] => []
@@ -91,10 +131,12 @@ def emitMapItems (cfg : Cfg) (level : Int) (first : Bool) : List (Y × Y) → St
   | [] => []
   | (k, v) :: ps =>
     (if first then [] else ['\n'] ++ indentStr cfg level) ++
-    (match k with
-      | .seq _ | .map _ =>
+    (if (match k with
+          | .seq _ | .map _ => true
+          | .str s => useLiteral cfg level s || decide (utf8Len s > 128)
+          | _ => false) then
         ['?'] ++ emitVal cfg level true k ++ ['\n'] ++ indentStr cfg level ++ [':'] ++ emitVal cfg level true v
-      | _ => emitNode cfg level k ++ [':'] ++ emitVal cfg level false v)
+      else emitNode cfg level k ++ [':'] ++ emitVal cfg level false v)
       ++ emitMapItems cfg level false ps
 def emitVal (cfg : Cfg) (level : Int) (inline : Bool) : Y → Str
   | .seq v =>
@@ -106,7 +148,7 @@ def emitVal (cfg : Cfg) (level : Int) (inline : Bool) : Y → Str
   | .str s => [' '] ++ emitScalarStr cfg level s
   | .bool b => [' '] ++ (if b then "true".toList else "false".toList)
   | .int i => [' '] ++ intStr i
-  | .float d => [' '] ++ d
+  | .float c d => [' '] ++ floatText c d
   | .null | .bad => [' ', '~']
 end
 
